@@ -346,7 +346,10 @@ func post(n ast.Node) ast.Node {
 						counts["make"]++
 						return &ast.CallExpr{Fun: &ast.IndexExpr{X: sel("Make"), Index: ct.Value}, Args: s.Args[1:]}
 					} else if isChanTypeExpr(s.Args[0]) {
-						die(s.Pos(), "make of a named channel type")
+						// make(T, n) with `type T chan E`: the element type follows from T's constraint
+						used = true
+						counts["make"]++
+						return &ast.CallExpr{Fun: &ast.IndexExpr{X: sel("MakeNamed"), Index: s.Args[0]}, Args: s.Args[1:]}
 					}
 				case "close":
 					counts["close"]++
